@@ -270,7 +270,8 @@ def run_sched(bindir, mode, arg_path, timeout=1200):
     return runs, info
 
 
-JUDGE_KEEP = {"ev", "t", "fn", "ok", "loc", "ord", "os", "of", "res", "woken", "kind", "run", "blocked", "cut", "cause"}
+JUDGE_KEEP = {"ev", "t", "fn", "ok", "loc", "ord", "os", "of", "res", "woken", "kind", "run", "blocked", "cut", "cause",
+              "try_ok", "get_mut", "into_inner"}
 
 
 def judge_runs(chk, runs, tag, batch=150000):
@@ -338,11 +339,12 @@ def describe(code, fn, r):
     return {
         "exclusion": "a guard was handed out by %s while an excluding guard existed" % fn,
         "race": "an access through the guard does not happen-after the previous conflicting access (orderings as passed by the code)",
-        "try_dishonest": "try_lock returned None although nobody held the mutex during the call",
+        "try_dishonest": "try_lock returned None although nobody held the mutex during the call (or: the quiescent lock could not be taken after the run although no guard is outstanding)",
         "try_blocks": "%s called FUTEX_WAIT" % fn,
         "lost_wakeup": "run ended with thread(s) %s parked in FUTEX_WAIT inside %s, every other thread finished and no guard outstanding" % (r["end"]["blocked"], fn),
         "deadlock_with_holder": "run ended with parked threads",
         "panic": "a lock operation panicked: %s" % next((e.get("msg") for e in r["events"] if e["ev"] == "panic"), ""),
+        "data_lost": "get_mut / into_inner on the quiescent lock do not deliver the value the write accesses left",
         "access_without_guard": "harness accessed data without a guard",
     }.get(code, code)
 
@@ -379,7 +381,18 @@ def track_guards(held, unl, e):
     """guard projection from the recorded events: a guard exists from the return of the acquiring
     call to the first operation of its drop (the model drops it at that operation)."""
     ev = e["ev"]
-    if ev == "ret" and e.get("ok") and e["fn"] not in ("unlock",):
+    # Debug formatting of the lock: an internal guard from its successful CAS to its releasing swap
+    if ev == "call" and e["fn"] == "debug":
+        unl.add(("dbg", e["t"]))
+    elif ev == "ret" and e["fn"] == "debug":
+        unl.discard(("dbg", e["t"]))
+        held.pop(e["t"], None)
+    elif "t" in e and ("dbg", e["t"]) in unl:
+        if ev == "cas" and e.get("ok"):
+            held[e["t"]] = "w"
+        elif ev == "swap" and e.get("new") == 0:
+            held.pop(e["t"], None)
+    elif ev == "ret" and e.get("ok") and e["fn"] not in ("unlock",):
         held[e["t"]] = "r" if e["fn"] in ("read", "try_read") else "w"
     elif ev == "call" and e["fn"] == "unlock":
         unl.add(e["t"])
